@@ -451,6 +451,18 @@ class TPPlugin(Plugin):
                 targets = [st.target]
             else:
                 targets = st.targets
+            # a flag: name = <boolean expression over predicates / flags>
+            if len(targets) == 1 and isinstance(targets[0], ast.Name) and \
+                    _boolean_shape(st.value) and getattr(
+                        self, "engine", None) is not None:
+                T, F = self.engine.cond(st.value, {freeze(d)})
+                outs = []
+                for states, val in ((T, True), (F, False)):
+                    for x in states:
+                        d2 = thaw(x)
+                        d2[targets[0].id] = ("k", val)
+                        outs.append(d2)
+                return outs
             vals = self.eval_multi(st.value, d)
             alts = vals if isinstance(vals, list) else [vals]
             outs = []
@@ -578,6 +590,23 @@ class TPPlugin(Plugin):
 
     def on_yield(self, st, d, v):
         self.returns.append((st, v, freeze(d)))
+
+
+def _boolean_shape(e, top=True):
+    """Expression whose value is a truth value built from representation
+    predicates, flags and constants."""
+    if isinstance(e, ast.BoolOp):
+        return all(_boolean_shape(v, False) for v in e.values)
+    if isinstance(e, ast.UnaryOp) and isinstance(e.op, ast.Not):
+        return _boolean_shape(e.operand, False)
+    if not top and isinstance(e, ast.Name):
+        return True
+    if not top and isinstance(e, ast.Constant) and isinstance(e.value, bool):
+        return True
+    if isinstance(e, ast.Call) and isinstance(e.func, ast.Attribute) and \
+            e.func.attr.startswith("get_is_") and not e.args:
+        return True
+    return False
 
 
 def _istp(v):
@@ -914,7 +943,8 @@ def r46_search_postcondition(ctx):
     params = set(f.call_params)
     loops = {}      # field -> While
     order = []
-    for n in walk_no_nested(f.node):
+    from ..model import preorder
+    for n in preorder(f.node):
         if isinstance(n, ast.While) and isinstance(n.test, ast.Compare) and \
                 len(n.test.ops) == 1 and isinstance(n.test.ops[0], ast.NotEq):
             a, b = n.test.left, n.test.comparators[0]
@@ -922,7 +952,7 @@ def r46_search_postcondition(ctx):
                 if isinstance(x, ast.Attribute) and isinstance(y, ast.Name) \
                         and x.attr == "_" + y.id and y.id in params:
                     loops[y.id] = n
-                    order.append((n.lineno, y.id))
+                    order.append((len(order), y.id))
                     rep.anchor(rule, "search loops")
     # (a) writes to a searched field only inside its own loop
     for n in walk_no_nested(f.node):
